@@ -30,6 +30,11 @@ def bound_for(name, args):
 
 
 def decide(ctx, drv, name, args, cb, coefs, bound, replay):
+    if len(coefs) > 130:
+        # far beyond the degrees the property speaks about (C14: 1..60); the exact certificate for a 250-term series takes
+        # minutes - such outputs are counted, not judged
+        ctx.count("skipped:more-than-130-coefficients")
+        return True
     c = [F(float(x)) for x in np.asarray(coefs, dtype=float)]
     cheb = c if cb else pl(drv.ask("cheb.p2c T %s" % rl(c)))
     B = bound * (1 + REL)
